@@ -61,6 +61,16 @@ package asset
 //@ ensures[C10,C12] fcount(p, k) == cntsince(A, d, k)
 //@ induction k
 
+// counting is monotone: a kept snapshot at position k is placed strictly before the final count
+//@ lemma cntsince_lt(A refslice, d int, k int, n int)
+//@ requires[C10,C12] 0 <= k && k < n && n <= len(A) && A[k].Date >= d
+//@ ensures[C10,C12] cntsince(A, d, k) < cntsince(A, d, n)
+//@ induction n
+//@ lemma cntsince_nonneg(A refslice, d int, n int)
+//@ requires[C10,C12] 0 <= n
+//@ ensures[C10,C12] 0 <= cntsince(A, d, n)
+//@ induction n
+
 // cntsince(S,d,k): how many of S[0..k-1] are dated on or after d: the position of S[k] in the filtered result
 //@ func InMemoryRepository.GetSince
 //@ ensures[C10] !has(r.storage, name) ==> result1 != nil
@@ -92,3 +102,40 @@ package asset
 //@ ensures[C10] forall n str :: has(r.storage, n) ==> result0[mapidx_Str(r.storage, n)] == n
 //@ loop#0 invariant len(assets) == idx0
 //@ loop#0 invariant forall j :: 0 <= j && j < idx0 ==> assets[j] == mapkey_Str(r.storage, j)
+
+// ---- interface Repository over the ghost abstract state view(self): asset name -> ordered snapshots (C10, C12) ------
+//@ func interface Repository.LastDate
+//@ ensures[C10] (result1 == nil) == (has(view(self), p0) && len(view(self)[p0]) > 0)
+//@ ensures[C10] result1 == nil ==> result0 == view(self)[p0][len(view(self)[p0]) - 1].Date
+
+//@ func interface Repository.GetSince
+//@ ensures[C10] result1 == nil ==> has(view(self), p0) && consumed(result0) == 0 && closed(result0) && len(result0) == cntsince(view(self)[p0], p1, len(view(self)[p0]))
+//@ ensures[C10] result1 == nil ==> (forall k :: 0 <= k && k < len(view(self)[p0]) ==> (view(self)[p0][k].Date >= p1 ==> result0[cntsince(view(self)[p0], p1, k)] == view(self)[p0][k]))
+//@ ensures[C10] result1 != nil ==> len(result0) == 0
+
+//@ func interface Repository.Append
+//@ requires consumed(p1) == 0
+//@ modifies self
+//@ ensures[C10] forall n str :: n != p0 ==> has(view(self), n) == old(has(view(self), n)) && sameslice(view(self)[n], old(view(self)[n]))
+//@ ensures[C10] result == nil ==> has(view(self), p0) && consumed(p1) == len(p1) && len(view(self)[p0]) == old(len(view(self)[p0])) + len(p1)
+//@ ensures[C10] result == nil ==> (forall k :: 0 <= k && k < old(len(view(self)[p0])) ==> view(self)[p0][k] == old(view(self)[p0][k]))
+//@ ensures[C10] result == nil ==> (forall k :: 0 <= k && k < len(p1) ==> view(self)[p0][old(len(view(self)[p0])) + k] == p1[k])
+
+//@ func interface Repository.Assets
+//@ ensures[C10] result1 == nil ==> len(result0) == len(view(self)) && (forall j :: 0 <= j && j < len(result0) ==> has(view(self), result0[j]))
+
+// ---- Sync: every requested asset gets exactly the source's snapshots dated after the target's last date (C12) --------
+// start date of asset name, decided on the target's state at the beginning of the run
+//@ macro syncstart(target, name, dflt) = (old(has(view(target), name)) && old(len(view(target)[name])) > 0) ? old(view(target)[name][len(view(target)[name]) - 1].Date) + 86400 : dflt
+//@ macro synced(source, target, name, dflt) = has(view(target), name) && len(view(target)[name]) == old(len(view(target)[name])) + cntsince(view(source)[name], syncstart(target, name, dflt), len(view(source)[name])) && (forall k :: 0 <= k && k < old(len(view(target)[name])) ==> view(target)[name][k] == old(view(target)[name][k])) && (forall k :: 0 <= k && k < len(view(source)[name]) ==> (view(source)[name][k].Date >= syncstart(target, name, dflt) ==> view(target)[name][old(len(view(target)[name])) + cntsince(view(source)[name], syncstart(target, name, dflt), k)] == view(source)[name][k]))
+
+//@ func Sync.Run
+//@ modifies s
+//@ requires source != target && len(s.Assets) >= 1
+//@ requires forall a, b :: 0 <= a && a < b && b < len(s.Assets) ==> s.Assets[a] != s.Assets[b]
+//@ ensures[C12] "no-error-means-every-asset-synced" result == nil ==> (forall j :: 0 <= j && j < len(s.Assets) ==> synced(source, target, s.Assets[j], defaultStartDate))
+//@ loop#1 use cntsince_lt(view(source)[name], lastDate, _, len(view(source)[name]))
+//@ loop#1 use cntsince_nonneg(view(source)[name], lastDate)
+//@ loop#1 invariant len(jobs) == len(s.Assets) && (forall j :: 0 <= j && j < len(jobs) ==> jobs[j] == s.Assets[j])
+//@ loop#1 invariant hasErrors || (forall j :: 0 <= j && j < consumed(jobs) ==> synced(source, target, s.Assets[j], defaultStartDate))
+//@ loop#1 invariant forall j :: consumed(jobs) <= j && j < len(s.Assets) ==> has(view(target), s.Assets[j]) == old(has(view(target), s.Assets[j])) && sameslice(view(target)[s.Assets[j]], old(view(target)[s.Assets[j]]))
